@@ -12,5 +12,5 @@ def run(ctx):
                   "thorough": "5000 simulated programs (<= 4 tracks x 6 bars)"}[ctx.tier]
     ctx.rule = "programs from the TLA+ builder machine; the LilyPond text is lexed into tokens by the harness and read by the token automaton of Notation.tla; distinct = distinct (operation, program); non-trivial = program with an accidental, a chord, a rest, a dotted or tuplet value, or a key/meter other than C major 4/4"
     ctx.nontrivial = lambda r: r["op"] != "build"
-    recs = ctx.execute("c19", cases)
+    recs = ctx.execute("c19", cases, orders=2)
     ctx.validate("Trace_C19", recs, driver="c19", shard=4000)
